@@ -22,7 +22,7 @@ SHRINK_MAX_S = 45
 SELFTEST_PAIRS = {"quick": 6, "thorough": 16}
 HARNESS_TOLERANCE = 0.0
 PROBES = ["clock_read_during_extraction", "hashseed_differs", "heap_shifted", "nonzero_start_position", "observer_history",
-          "partial_unit_iteration", "faulted_but_accepted_input", "result_with_images", "order_reversed"]
+          "partial_unit_iteration", "faulted_but_accepted_input", "result_with_images", "order_reversed", "interleaved_generators"]
 RULE = ("config runs: a batch of corpus documents extracted in k fresh interpreters that differ in PYTHONHASHSEED, simulated clock "
         "(base years apart, advancing on every read), heap layout, initial stream position and batch order; twice per process; "
         "canonical to_json digests must agree. observer runs: a seeded sequence of 5-40 observer calls on one result against a "
@@ -77,17 +77,23 @@ def _apply(data: bytes, ops) -> bytes:
     return blockdev.apply_ops(data, ops, corpus.splice_sources()) if ops else data
 
 
-SENSITIVE = ["gen/deep.html", "gen/deep.rtf", "gen/deep.json"]  # outcome depends on interpreter-global settings (recursion limit)
+SENSITIVE = ["gen/deep.html", "gen/deep.rtf", "gen/deep.json", "gen/hebrew.html", "gen/arabic.html", "gen/server.log", "gen/settings.ini"]  # outcome depends on interpreter-global settings (recursion limit)
 
 
 def gen_case(rng: random.Random, tier: str) -> dict:
-    mode = rng.choices(["config", "observe"], [1, 3])[0]
+    mode = rng.choices(["config", "observe", "interleave"], [1, 3, 0.6])[0]
+    if mode == "interleave":
+        multi = [n for n in _names if n.endswith((".7z", ".zip", ".tar", ".tar.gz", ".tgz", ".mbox", ".tar.bz2", ".tar.xz"))]
+        a = rng.choice(multi)
+        same = [n for n in multi if n.rsplit(".", 1)[-1] == a.rsplit(".", 1)[-1]]
+        b = rng.choice(same) if rng.random() < 0.45 else rng.choice(multi if rng.random() < 0.7 else _names)
+        return {"mode": "interleave", "docs": [a, b], "pattern": [rng.randrange(2) for _ in range(rng.randrange(2, 12))]}
     if mode == "config":
         nd = rng.choice([6, 10, 14]) if tier == "quick" else rng.choice([8, 14, 20])
         small = [n for n in _names if len(_docs[n]) < 400_000]
         names = rng.sample(small, min(nd, len(small)))
         for sname in SENSITIVE:
-            if sname in _docs and sname not in names and rng.random() < 0.5:
+            if sname in _docs and sname not in names and rng.random() < 0.4:
                 names.insert(rng.randrange(len(names) + 1), sname)
         docs = []
         for n in names:
@@ -382,7 +388,59 @@ def _run_observe(case):
             "nontrivial": sorted(nontriv), "states": [log.digest()[:8]], "summary": {"results": len(results), "observer_calls": len(case["obs"])}}
 
 
+def _run_interleave(case):
+    """two result generators advanced alternately must yield what each yields on its own (extraction has no shared scratch state)"""
+    log = K.EventLog()
+    log.ev("case", K.h64(K.jdump(case)))
+    viol = []
+    tmp = os.path.join(K.sandbox_root(), f"c06-tmp-{os.getpid() % 10 ** 7:07d}")
+    os.makedirs(tmp, exist_ok=True)
+    import tempfile
+    tempfile.tempdir = tmp
+
+    def gen(n):
+        return iter(corpus.extractor_for(n)(io.BytesIO(_docs[n]), SIMPATH + "/" + os.path.basename(n)))
+
+    def drain(g):
+        out, exc = [], None
+        try:
+            for r in g:
+                out.append(canon.digest(r.to_json()))
+        except Exception as e:
+            exc = type(e).__name__
+        return out, exc
+
+    alone = [drain(gen(n)) for n in case["docs"]]
+    gens = [gen(n) for n in case["docs"]]
+    outs, excs, alive = [[], []], [None, None], [True, True]
+    pattern = list(case["pattern"])
+    i = 0
+    while any(alive):
+        gi = pattern[i % len(pattern)] if alive[pattern[i % len(pattern)]] else (1 - pattern[i % len(pattern)])
+        i += 1
+        if not alive[gi]:
+            continue
+        try:
+            outs[gi].append(canon.digest(next(gens[gi]).to_json()))
+        except StopIteration:
+            alive[gi] = False
+        except Exception as e:
+            alive[gi] = False
+            excs[gi] = type(e).__name__
+    for gi, n in enumerate(case["docs"]):
+        log.ev("interleave", n, len(outs[gi]), excs[gi], len(alone[gi][0]), alone[gi][1])
+        if (outs[gi], excs[gi]) != alone[gi]:
+            viol.append({"class": "nondeterministic_result", "sig": f"{n.rsplit('.', 1)[-1]}|depends_on_interleaved_extraction",
+                         "detail": f"{n} consumed alternately with {case['docs'][1 - gi]}: {len(outs[gi])} results ({excs[gi]}), on its own {len(alone[gi][0])} ({alone[gi][1]})"})
+    import shutil
+    shutil.rmtree(tmp, ignore_errors=True)
+    return {"violations": viol, "digest": log.digest(), "steps": log.n, "evals": 4, "faults": {}, "probes": {"interleaved_generators": 1},
+            "nontrivial": [f"interleave|{case['docs'][0]}|{case['docs'][1]}"], "states": [log.digest()[:8]], "summary": {"mode": "interleave"}}
+
+
 def run_case(case: dict) -> dict:
+    if case["mode"] == "interleave":
+        return _run_interleave(case)
     if case["mode"] == "config":
         return _run_config(case)
     return _run_observe(case)
@@ -390,6 +448,11 @@ def run_case(case: dict) -> dict:
 
 # ------------------------------------------------------------------------------------------------ shrinking
 def shrink(case):
+    if case["mode"] == "interleave":
+        if len(case["pattern"]) > 2:
+            yield dict(case, pattern=case["pattern"][: len(case["pattern"]) // 2])
+        yield dict(case, pattern=[0, 1])
+        return
     if case["mode"] == "observe":
         obs = case["obs"]
         n = len(obs)
